@@ -1,9 +1,8 @@
 (* C17 -- real-valued formulas of the shipped test problems: the Gaussian PSF, the built-in legacy
    PSFs, and the posterior log-density "Gaussian log-likelihood of the stated noise + log-prior".
-   These are evaluated per case by an `interval` proof (ENCLOSURE).  No proofs here. *)
+   These are evaluated per case by an `interval` proof (ENCLOSURE, tactic in C17_Encl.v).  No proofs here. *)
 From Coq Require Import Reals List ZArith.
 Import ListNotations.
-From Interval Require Import Tactic.
 Local Open Scope R_scope.
 
 Definition rsum (l : list R) : R := fold_right Rplus 0 l.
@@ -45,11 +44,8 @@ Definition ph_bumps_R (dim g : R) : R :=
 Definition ph_dgauss_R (p t0 t1 ta tb : R) : R :=
   (ph_gauss_R p t1 - ph_gauss_R p t0) / (ph_gauss_R p tb - ph_gauss_R p ta).
 
-Ltac c17_red :=
-  cbv [gauss_psf_R gauss_w rsum map fold_right nth legacy_gauss_R legacy_vonmises_R legacy_sinc_R
-       sq ssq gauss_iid_logpdf gauss_diag_logpdf post_logd_iid post_logd_diag fst snd length INR
-       ph_gauss_R ph_sinc_R ph_vonmises_R ph_bumps_R ph_dgauss_R].
-Ltac c17_encl := c17_red; interval with (i_prec 90).
+(* the reduction + interval tactic used by the generated ENCLOSURE cases lives in Model/C17_Encl.v, so that the
+   property theorems (and coqchk on them) do not depend on the Interval library *)
 
 (* WangCubic over R (same two lines as the Qc model in C17_TP.v) *)
 Definition cubic_forward_R (x0 x1 : R) : R := 10 * x1 - 10 * (x0 * x0 * x0) + 5 * (x0 * x0) + 6 * x0.
